@@ -123,7 +123,7 @@ def _direct_rejections(ctx, f):
         nm = call_name(c)
         if nm in VALIDATING_CTORS and c.args and isinstance(c.args[0], ast.Name) and c.args[0].id in f.params:
             if nm == "cls":
-                vs = [norm(v) for v in assigned_value(f, "cls")]
+                vs = [norm(v) for x in assigned_value(f, "cls") for v, _ in q.arms(f, x)]
                 if not any(v in ("Formula", "func.__class__", "formula.__class__") for v in vs):
                     continue
             out.append(c)
